@@ -66,8 +66,12 @@ func drainChannel[T any](ch <-chan T) {
 
 func cleanInfiniteChannel(ch *channels.InfiniteChannel) {
 	ch.Close()
-	// drain all remaining items
-	drainChannel(ch.Out())
+	// Drain all remaining items until the channel's goroutine has flushed
+	// its buffer and closed the output. A non-blocking drain can run before
+	// that goroutine has moved a queued item to the output side, and the
+	// goroutine would then block on it forever.
+	for range ch.Out() {
+	}
 }
 
 // Returns the binary formatted Administrative Shutdown Communication from the
